@@ -718,6 +718,9 @@ class Check(PropertyCheck):
                    for c, obs in zip(cases, impl)]
         cmod = self.model('qnmatch', cinputs)
         for c, obs, cm in zip(cases, impl, cmod):
+            if any(q[0] == 'ghost' for q in c['queries']):
+                continue        # a kind-less stand-in may share its full name with a real object that an isVisible/isPrivate
+                                # query (not replayed in this leg) has cached: covered by the full model leg above
             want = [o[4] for o in obs if o[5] == 0]
             got = dec(cm)
             self.evaluations += len(want)
